@@ -1278,6 +1278,12 @@ impl Monitor for M {
                     if feat.chars == 0 {
                         obs.count("feature:no_chars");
                     }
+                    if feat.big_skips > 0 {
+                        obs.count("gen.fonts_with_skip_of_100_or_more");
+                    }
+                    if feat.extra_header >= 200 {
+                        obs.count("gen.fonts_with_header_of_200_or_more_words");
+                    }
                     if feat.skips > 0 {
                         obs.count("feature:skip");
                     }
